@@ -143,6 +143,39 @@ class BigQueryModel(data_algebra.db_model.DBModel):
         table_name = self.get_table_name(table_description)
         return self.quote_identifier(table_name)
 
+    def quote_identifier(self, identifier: str) -> str:
+        """
+        Quote identifier. BigQuery quoted identifiers take the escape sequences of string literals
+        and can not contain a line break.
+        """
+        assert isinstance(identifier, str)
+        if self.identifier_quote in identifier:
+            raise ValueError(
+                "did not expect " + self.identifier_quote + " in identifier"
+            )
+        return (
+            self.identifier_quote
+            + identifier.replace("\\", "\\\\")
+            .replace("\n", "\\n")
+            .replace("\r", "\\r")
+            + self.identifier_quote
+        )
+
+    def quote_string(self, string: str) -> str:
+        """
+        Quote a string value. BigQuery string literals use backslash escapes (a doubled quote
+        is not an escaped quote) and can not contain a line break.
+        """
+        assert isinstance(string, str)
+        return (
+            self.string_quote
+            + string.replace("\\", "\\\\")
+            .replace(self.string_quote, "\\" + self.string_quote)
+            .replace("\n", "\\n")
+            .replace("\r", "\\r")
+            + self.string_quote
+        )
+
     # noinspection PyMethodMayBeStatic
     def execute(self, conn, q):
         """
